@@ -186,8 +186,25 @@ pub fn run(tier: Tier, seed: u64) -> i32 {
                         digxml::Pin::new(digxml::PinKind::Out, nq).bits("8"),
                         digxml::Pin::new(digxml::PinKind::Out, "i").bits("8"),
                     ];
-                    let doc = digxml::render(&pins, &[digxml::TestDesc { label: Some("t".into()), source: laid.text.clone(), extra: vec![] }]);
-                    let loaded = guard(DEFAULT_BUDGET, || dtr::dig::File::parse(&doc).map_err(|e| miette_chain(&e)).and_then(|f| f.load_test(0).map_err(|e| miette_chain(&e))));
+                    // every other time the file object is first loaded with the canonical layout, then its public
+                    // source field is overwritten with this layout and the test loaded again (also from a clone)
+                    let edited = li % 2 == 0 && !lay.is_empty();
+                    let first_text = if edited { apply(&ls, &[]).text } else { laid.text.clone() };
+                    let doc = digxml::render(&pins, &[digxml::TestDesc { label: Some("t".into()), source: first_text, extra: vec![] }]);
+                    let new_text = laid.text.clone();
+                    let loaded = guard(DEFAULT_BUDGET, || {
+                        dtr::dig::File::parse(&doc).map_err(|e| miette_chain(&e)).and_then(|mut f| {
+                            if edited {
+                                let _ = f.load_test(0);
+                                f.test_cases[0].source = new_text;
+                                f = f.clone();
+                            }
+                            f.load_test(0).map_err(|e| miette_chain(&e))
+                        })
+                    });
+                    if edited {
+                        st.witness("source_field_of_a_loaded_file_edited_then_loaded_again");
+                    }
                     match loaded {
                         Ok(Ok(tc)) => {
                             let o2 = run_loaded(&tc, &sigs, true, &script, &opts);
@@ -254,7 +271,7 @@ pub fn run(tier: Tier, seed: u64) -> i32 {
         seed,
         rule: "every program of the space that yields at least one row x every layout with at most 2 deviations from the canonical one-statement-per-line layout; the expected line of each row is recorded by the generator when it lays the text out; dynamic API, static API (when the program is static) and the same text loaded through a generated .dig document; non-trivial = at least one deviation".into(),
         assumptions: vec!["the generating printer (layout.rs) is the oracle for line numbers; only the line field is compared here".into()],
-        required_witnesses: vec!["blank_line_before_header", "comment_line_inserted", "blank_line_inserted", "crlf", "trailing_comment", "no_final_newline", "static_api_lines_compared", "loaded_from_dig_document", "companion_iterator_advanced_in_between", "row_on_a_line_beyond_65535", "indented_line", "while_ran_1", "parsed_after_failed_parses_on_the_same_thread"],
+        required_witnesses: vec!["blank_line_before_header", "comment_line_inserted", "blank_line_inserted", "crlf", "trailing_comment", "no_final_newline", "static_api_lines_compared", "loaded_from_dig_document", "companion_iterator_advanced_in_between", "row_on_a_line_beyond_65535", "indented_line", "while_ran_1", "parsed_after_failed_parses_on_the_same_thread", "source_field_of_a_loaded_file_edited_then_loaded_again"],
         exhaustive_note: "all programs x all layouts within the bounds (K=4 in the thorough tier with single deviations)".into(),
         e1: false,
     };
